@@ -10,14 +10,14 @@ from gv import core, families, formats, gen, monitors
 
 ID = "C13"
 LEVEL = "exploration"
-RULE = ("for every generated document pair of one input type all 432 cells {8 output formats} x {diff,-e,-d} x {plain,--color,--html} x "
+RULE = ("for every generated document pair of one input type all 576 cells {8 output formats} x {diff,-e,-d} x {plain,--color,--html,--html --color} x "
         "{-,-j,a --match-if/--match-unless rule whose evaluation fails on some nodes} x {equal,different} are enumerated; 8 input types (json, json5, yaml, csv, xml, html, plist, pickle); non-trivial = "
         "the documents differ; distinct = distinct (input type, pair, cell)")
 ASSUMPTIONS = ["what the output looks like is not judged, only that rendering completes (main() returns 0 or 1, no traceback)"]
 MINIMUMS = {"quick": {"cells_with_a_matching_rule": 2000, "cells_run": 5000, "cells_with_status_output_and_real_fds": 2000, "cells_on_a_terminal": 1000},
             "thorough": {"cells_run": 60000, "cells_with_status_output_and_real_fds": 25000, "cells_on_a_terminal": 12000}}
 MODES = [[], ["-e"], ["-d"]]
-LOOKS = [[], ["--color"], ["--html"]]
+LOOKS = [[], ["--color"], ["--html"], ["--html", "--color"]]
 COND = [[], ["-j"], ["rule"]]
 # matching rules whose evaluation fails on some nodes (empty strings / lists, non-containers, division by a zero length): the user's
 # expression is evaluated on every pair of nodes a comparison looks at, and whatever it raises there must not end the run
@@ -112,7 +112,7 @@ def classify(case, diag):
 
 def coverage_extra(counters, tier):
     return {"exhaustive": True,
-            "exhaustive_subspaces": "all 432 cells (8 formats x 3 modes x 3 looks x {-, -j, matching rule} x equal/different) for every document pair "
+            "exhaustive_subspaces": "all 576 cells (8 formats x 3 modes x 4 looks x {-, -j, matching rule} x equal/different) for every document pair "
                                     "of each of the 8 input types",
             "cells_per_input_type": {k[3:]: v for k, v in counters.items() if k.startswith("in:")}}
 
